@@ -48,7 +48,8 @@ def c07_configs(tier):
             out.append(pair(1, 2, [0, 0, 2], BFREE=B6X, **k))        # 12 bits
             if (enc, sel) != (0, 0) and (enc, sel) != (0, 1):        # (bottom-up upward: known finding C07-1 for rank 2 in A)
                 out.append(pair(2, 3, [0, 0, 2], **dict(JOINT, _time=1500, **k)))    # 14 bits
-                out.append(pair(2, 3, [0, 0, 0, 2], **dict(JOINT3, _time=1500, **k)))   # 15 bits
+                if tier == 'thorough' or (enc, sel) in ((1, 4), (1, 5)):        # quick: the plain downward functor with and without a relation; the others take 3..8 minutes each
+                    out.append(pair(2, 3, [0, 0, 0, 2], **dict(JOINT3, _time=1500, **k)))   # 15 bits
         out.append(pair(1, 1, [0, 0, 1], **k))                       # 8 bits
         out.append(pair(1, 1, [0, 0, 2], **k))                       # 8 bits
         out.append(pair(2, 1, [0, 1], **k))                          # 11 bits
@@ -60,6 +61,12 @@ def c07_configs(tier):
             out.append(pair(1, 2, [0, 0, 2], BFREE=B8, _time=2800, **k))   # 14 bits
             out.append(pair(2, 2, [0, 1], _time=2800, **k))          # 16 bits
             out.append(pair(2, 1, [0, 1], SEED=0, PRIME=2, **k))     # 11 bits, numbering by the loader
+    # heap model with reuse of released addresses (the downward checkers memoise set comparisons under the addresses of macro-states)
+    for (enc, sel, src) in [(1, 4, 0), (1, 6, 0), (1, 5, 1), (1, 7, 1)] + ([(0, 5, 1)] if tier == 'thorough' else []):
+        k = {'ENC': enc, 'SEL': sel, 'SIMSRC': src, '_reuse': 1}
+        out.append(pair(1, 2, [0, 0, 2], BFREE=B6, **k))
+        out.append(pair(1, 2, [0, 0, 2], BFREE=B6X, **k))
+        if tier == 'thorough': out.append(pair(2, 3, [0, 0, 2], **dict(JOINT, _time=1500, **k)))
     for (enc, sel, src) in UNIMPLEMENTED + (UNIMPLEMENTED_TOSTRING if OSTRINGSTREAM_MODELLED else []):
         out.append(pair(1, 1, [0, 0, 1], ENC=enc, SEL=sel, SIMSRC=src))   # 8 bits
     out.sort(key=lambda d: 0 if '_time' in d else 1)      # the long queries first
